@@ -35,12 +35,38 @@ _TIER = "quick"
 EXCS = ["ValueError", "FloatingPointError", "MemoryError", "KeyboardInterrupt"]
 METHODS = ["auto", "SLSQP", "trust-constr", "L-BFGS-B", "highs"]
 WHERES = (["entry"] + [f"{t}@{k}" for t in ("fun", "jac") for k in (1, 2, 3)] + [f"{t}@{k}" for t in ("con", "conjac", "hess") for k in (1, 2)]
-          + ["compile_hessian", "compile_jacobian", "compile_expression", "lp_extract", "linprog"])
+          + ["compile_hessian", "compile_jacobian", "compile_expression", "lp_extract", "linprog"]
+          # the fault is raised INSIDE the compiled callable (below optyx's own wrappers), at its k-th call
+          + [f"in:{t}@{k}" for t in ("compile_expression", "compile_jacobian", "compile_hessian") for k in (1, 2)])
+
+
+def install_inner_fault(where, exc_name, patches, injected):
+    """patch compile_* so that the functions it returns raise once, at the k-th call over all of them"""
+    import optyx.core.autodiff as A
+    import optyx.core.compiler as C
+    target, _, k = where[3:].partition("@")
+    k = int(k)
+    mod = {"compile_expression": C, "compile_jacobian": A, "compile_hessian": A}[target]
+    orig = getattr(mod, target)
+    cnt = {"n": 0}
+
+    def wrapping(*a, **kw):
+        f = orig(*a, **kw)
+
+        def g(x):
+            cnt["n"] += 1
+            if cnt["n"] == k and not injected["n"]:
+                injected["n"] += 1
+                raise make_exc(exc_name)
+            return f(x)
+        return g
+    patches.append((mod, target, orig))
+    setattr(mod, target, wrapping)
 
 META = dict(
     rule="one case = (model, where, exception class, method); fault_enumeration over the full product; the post-fault argument equivalence is a z3 validity query over x and the symbolic data",
     bounds={
-        "quick": "4 models (NLP with two constraints, unconstrained NLP maximise, LP minimise, LP maximise) x 20 fault locations x 4 exception classes x 5 methods; callbacks k <= 3",
+        "quick": "4 models (NLP with two constraints, unconstrained NLP maximise, LP minimise, LP maximise) x 26 fault locations (6 of them inside the compiled callables) x 4 exception classes x 5 methods; callbacks k <= 3",
         "thorough": "same product (finite, fully enumerated in both tiers) plus the real-SciPy validation of the stub",
     },
     outside=["faults that corrupt memory or kill the interpreter", "asynchronous signals delivered between two bytecodes of the restore sequence itself", "rounding (S7)"],
@@ -128,6 +154,8 @@ def run_case(model, where, exc_name, method, planted=False):
     tag = f"{model['tag']}/{where}/{exc_name}/{method}"
     payload = dict(kind="fault", model=K.enc(model), where=where, exc=exc_name, method=method)
     sig0 = f"{where.split('@')[0]}|{exc_name}"
+    if where.startswith("in:") and method == "highs":
+        return [dict(status="conformance", what=f"{tag}: no compiled callables on the LP route", points=0)]
 
     def path():
         p, b = LM.build_model(model, val)
@@ -153,6 +181,8 @@ def run_case(model, where, exc_name, method, planted=False):
         elif where == "lp_extract":
             patches.append((An.LinearProgramExtractor, "extract", An.LinearProgramExtractor.extract))
             An.LinearProgramExtractor.extract = raiser
+        elif where.startswith("in:"):
+            install_inner_fault(where, exc_name, patches, injected)
         outcome = None
         try:
             with stubs.patched(ms, ls), warnings.catch_warnings():
@@ -305,6 +335,8 @@ def replay(payload):
     if tgt:
         patches.append((tgt[0], tgt[1], getattr(*tgt)))
         setattr(tgt[0], tgt[1], raiser)
+    if where.startswith("in:"):
+        install_inner_fault(where, exc_name, patches, {"n": 0})
     outcome = None
     try:
         with stubs.patched(ms, ls):
@@ -350,4 +382,17 @@ def replay(payload):
             return True, "next solve hands different callables to the solver than an untouched copy"
         if not np.allclose(np.asarray(ca["jac"](x), dtype=float), np.asarray(cb["jac"](x), dtype=float)):
             return True, "next solve: gradient differs from an untouched copy"
+        if ca["hess"] is not None:
+            try:
+                ha = np.asarray(ca["hess"](x), dtype=float)
+            except Exception as e:  # noqa: BLE001
+                return True, f"after {exc_name} at {where} ({method}) the next solve's Hessian callable raises {type(e).__name__}: {e}"
+            if not np.allclose(ha, np.asarray(cb["hess"](x), dtype=float)):
+                return True, "next solve: Hessian differs from an untouched copy"
+        for da, db in zip(ca.get("constraints") or [], cb.get("constraints") or []):
+            try:
+                if not K.close(float(da["fun"](x)), float(db["fun"](x)), 1e-9, 1e-12) or not np.allclose(np.asarray(da["jac"](x), dtype=float), np.asarray(db["jac"](x), dtype=float)):
+                    return True, "next solve: constraint callables differ from an untouched copy"
+            except Exception as e:  # noqa: BLE001
+                return True, f"next solve: a constraint callable raises {type(e).__name__}: {e}"
     return False, "no difference reproduced"
